@@ -204,6 +204,26 @@ SEEDS = [
   "RIGHT$(v$, n) with n >= LEN(v$) on a variable, array element or STRING * n, and the variable read again afterwards",
   "run_demo.sh (demo.bas vs expected.txt)"),
 
+ # ---- round 8 (second session): the kernels claimed last (C14, C15, C18) ----
+ ("C14-not-equal-by-variant-eq", "C14", "eval_const, Operator::NotEqual arm: `Ok(Variant::from(v_left != v_right))` - Variant's PartialEq (different types are never equal) instead of try_cmp",
+  "<> inside a CONST expression with operands of two different numeric types whose values are equal: CONST V = 2.0: CONST L = V <> 2 gives -1, PRINT (2.0) <> 2 prints 0",
+  "run_demo.sh (demo.bas vs expected.txt)"),
+ ("C14-const-lookup-global-first", "C14", "impl ConstLookup for Names, get_const_value: the global scope is searched before the current subprogram's scope",
+  "a CONST at SUB/FUNCTION level whose expression refers to an earlier local constant that hides a global constant of the same name",
+  "run_demo.sh (demo.bas vs expected.txt)"),
+ ("C15-goto-forward-pops-registers", "C15", "instruction generator: a GOTO inside a FOR body emits one PopRegisters per FOR loop it is judged to leave; a label defined later in the same body is judged to be outside",
+  "a GOTO inside a FOR ... NEXT body whose target label is defined after the GOTO in the same body (the 'continue' idiom): the register stack underflows",
+  "run_demo.sh (demo.bas vs expected.txt)"),
+ ("C15-block-labels-by-row", "C15", "instruction generator: generated labels are named by the source row only (`_{prefix}_{row}`) instead of row and column",
+  "two block statements of the same kind starting on one source line (FOR i ...: FOR j ...; two variables in one DIM inside a STATIC sub): duplicate labels, the resolver keeps the last",
+  "run_demo.sh (demo.bas vs expected.txt)"),
+ ("C18-record-seek-cache", "C18", "FileInfo caches the file position and skips the seek when the cache equals the wanted offset; get_record advances the cache by rec_len even after a short read",
+  "on one RANDOM handle a GET of a record beyond the end of the file followed by an access to the next record: PUT 1; GET 2; PUT 3; GET 3",
+  "run_demo.sh (demo.bas vs expected.txt)"),
+ ("C18-open-touches-file-before-handle-check", "C18", "FileManager::open opens or creates the file first (entry API 'one lookup instead of two') and only then finds the handle occupied",
+  "OPEN on a handle in use: for a missing input file error 53 instead of 55; FOR OUTPUT on an existing file 55 is reported but the file is already emptied",
+  "run_demo.sh (demo.bas vs expected.txt)"),
+
 ]
 
 RESULTS_FILE = os.path.join(HERE, "seeded", "results.json")
